@@ -2,7 +2,9 @@ package engines
 
 import (
 	"fmt"
+	"regexp"
 	"strings"
+	"time"
 
 	ucfg "github.com/elastic/go-ucfg"
 	"github.com/elastic/go-ucfg/flag"
@@ -44,6 +46,8 @@ func init() {
 	probes["O32"] = probeO32
 	probes["O33"] = probeO33
 	probes["O34"] = probeO34
+	probes["O35"] = probeO35
+	probes["O36"] = probeO36
 	probes["O23"] = probeO23
 	probes["O24"] = probeO24
 }
@@ -537,5 +541,27 @@ func probeO34() (bool, string) {
 		t3.A, t3.C = nil, &empty
 		e1, e2, e3 := c.Unpack(&t), c.Unpack(&t2), c.Unpack(&t3)
 		return e1 == nil || e2 == nil || e3 == nil, fmt.Sprint(e1, " / ", e2, " / ", e3)
+	})
+}
+
+func probeO35() (bool, string) {
+	return guard(func() (bool, string) {
+		c, _ := ucfg.NewFrom(map[string]interface{}{"r": "ab+"})
+		t := struct {
+			R *regexp.Regexp `config:"r"`
+		}{R: regexp.MustCompile("old")}
+		err := c.Unpack(&t)
+		return err != nil || t.R.String() != "ab+", fmt.Sprint(err, " ", t.R)
+	})
+}
+
+func probeO36() (bool, string) {
+	return guard(func() (bool, string) {
+		c, _ := ucfg.NewFrom(map[string]interface{}{"d": "${t}", "t": 4}, ucfg.VarExp)
+		t := struct {
+			D time.Duration `config:"d"`
+		}{}
+		err := c.Unpack(&t, ucfg.VarExp)
+		return err != nil || t.D != 4*time.Second, fmt.Sprint(err, " ", t.D)
 	})
 }
